@@ -539,3 +539,23 @@ def install_types(reg):
                _build_array_visitor("visit_type_array_variable_inclusive", 9, 6))
     NATIVE.add(E.PTP + "visit_type_array_variable_exclusive", _gen_array_visitor,
                _build_array_visitor("visit_type_array_variable_exclusive", 9, 6))
+
+
+# ---- operator chains
+def _gen_chain(rng, i):
+    n = [0, 1, 2, 3, 4][i % 5]
+    return {"first": _gen_rat(rng), "ops": [rng.choice(["subtract", "divide", "power", "add", "less"]) for _ in range(n)],
+            "rights": [_small_exponent(rng, _gen_rat(rng)) for _ in range(n)]}
+
+
+def _build_chain(d):
+    from pydsdl import _parser as P, _expression as X
+
+    first = _mk(d["first"])
+    chain = [(None, getattr(X, op), None, _mk(r)) for op, r in zip(d["ops"], d["rights"])]
+    ch = (first, chain)
+    return (lambda: P._ParseTreeProcessor._visit_binary_operator_chain(None, None, ch)), {"_n": None, "children": ch}
+
+
+def install_chain():
+    NATIVE.add(E.PTP + "_visit_binary_operator_chain", _gen_chain, _build_chain)
